@@ -771,6 +771,7 @@ var bceLine = regexp.MustCompile(`^(.+\.go):(\d+):(\d+): Found (IsInBounds|IsSli
 
 func checkBCE(c *Ctx, roots []*ssa.Function) {
 	R := c.R
+	discoverLenBoundedFields(c)
 	args := []string{"build", "-gcflags=" + core.ModulePath + "/...=-d=ssa/check_bce/debug=1"}
 	// self-test variants are source overlays: hand the same overlay to the compiler
 	if ov := overlayFromEnv(); ov != nil {
@@ -1032,8 +1033,51 @@ func exprShape(x ast.Expr) string {
 
 // lenBoundedFields: slice fields whose length is int(MaxTTL)+1 by construction (decided by C19 R19.2 / C03 R03.2): an index
 // that a dominating comparison bounds by MaxTTL is in range.
-var lenBoundedFields = map[string]bool{
-	"sack.sackDriver.sendTimes": true,
+var lenBoundedFields = map[string]bool{}
+
+// discoverLenBoundedFields finds them by role: a struct field that is assigned make([]T, int(x.MaxTTL)+1).
+func discoverLenBoundedFields(c *Ctx) {
+	for _, f := range c.P.ModFuncs {
+		for _, b := range f.Blocks {
+			for _, in := range b.Instrs {
+				st, ok := in.(*ssa.Store)
+				if !ok {
+					continue
+				}
+				fa, ok := st.Addr.(*ssa.FieldAddr)
+				if !ok {
+					continue
+				}
+				mk, ok := st.Val.(*ssa.MakeSlice)
+				if !ok {
+					continue
+				}
+				bo, ok := mk.Len.(*ssa.BinOp)
+				if !ok || bo.Op != token.ADD {
+					continue
+				}
+				cst, ok := bo.Y.(*ssa.Const)
+				if !ok || cst.Value == nil || cst.Int64() != 1 {
+					continue
+				}
+				x := stripWiden(bo.X)
+				isMax := false
+				switch y := x.(type) {
+				case *ssa.UnOp:
+					if fa2, ok := y.X.(*ssa.FieldAddr); ok && core.FieldName(fa2) == "MaxTTL" {
+						isMax = true
+					}
+				case *ssa.Field:
+					if stt, ok := y.X.Type().Underlying().(*types.Struct); ok && stt.Field(y.Field).Name() == "MaxTTL" {
+						isMax = true
+					}
+				}
+				if isMax {
+					lenBoundedFields[strings.TrimPrefix(fieldKeyOf(fa), core.ModulePath+"/")] = true
+				}
+			}
+		}
+	}
 }
 
 // domFacts: branch conditions whose outcome is fixed at block b (the branch's taken successor dominates b).
